@@ -953,6 +953,8 @@ impl RtpTransport {
             listeners.by_ssrc.clear();
             count += listeners.by_rid.len();
             listeners.by_rid.clear();
+            count += listeners.by_mid.len();
+            listeners.by_mid.clear();
             count += listeners.routes.len();
             listeners.routes.clear();
         }
